@@ -1855,12 +1855,33 @@ double Analyser::AnalyserImpl::powerValue(const AnalyserEquationAstPtr &ast,
             return NAN;
         }
 
+        // Note: an initial value may be the name of another variable, or a
+        //       number that does not fit a double, in which case we do not have
+        //       a value for it.
+
+        double initialValueAsDouble;
+
+        if (!convertToDouble(initialValue, initialValueAsDouble)) {
+            powerData.mExponentValueAvailable = false;
+
+            return NAN;
+        }
+
         powerData.mExponentValueChangeable = true;
 
-        return std::stod(initialValue);
+        return initialValueAsDouble;
     }
-    case AnalyserEquationAst::Type::CN:
-        return std::stod(ast->value());
+    case AnalyserEquationAst::Type::CN: {
+        double value;
+
+        if (!convertToDouble(ast->value(), value)) {
+            powerData.mExponentValueAvailable = false;
+
+            return NAN;
+        }
+
+        return value;
+    }
 
         // Qualifier elements.
 
